@@ -8,6 +8,7 @@ CONSTANTS
   MaxSeeds = 1
   MaxSeedLen = 2
   WithTwins = TRUE
+  ResizeAlways = TRUE
 SPECIFICATION Spec
 INVARIANT NoBrokenRule
 INVARIANT ExactOnSuccess
